@@ -20,10 +20,15 @@ MSG_EVENT = {
     'notif_hdr': 'EvNotifOther', 'notif_upd': 'EvNotifOther', 'notif_hold': 'EvNotifOther', 'notif_fsm': 'EvNotifOther',
     'notif_cease_data': 'EvNotifOther', 'notif_unassigned': 'EvNotifOther', 'notif_open_other': 'EvNotifOther',
     'update_eor': 'EvUpdateMsg', 'update_withdraw': 'EvUpdateMsg',
+    # every framing error of RFC 4271 6.1: message length below the type's minimum or above 4096 (reported as soon
+    # as the header is there), unknown type, KEEPALIVE with a body
+    'open_short': '(EvHeaderErr 2)', 'bad_len_small': '(EvHeaderErr 2)', 'bad_len_big': '(EvHeaderErr 2)',
+    'keepalive_body': '(EvHeaderErr 2)', 'unknown_type0': '(EvHeaderErr 3)',
 }
 # message variants delivered in every session state in addition to the exploration alphabet
 DIRECTED = ['notif_hdr', 'notif_upd', 'notif_hold', 'notif_fsm', 'notif_cease_data', 'notif_unassigned', 'notif_open_other',
-            'update_eor', 'update_withdraw']
+            'update_eor', 'update_withdraw',
+            'open_short', 'bad_len_small', 'bad_len_big', 'keepalive_body', 'unknown_type0']
 TIMER_EVENT = {'TConnectRetry': 'EvConnectRetryExpires', 'THold': 'EvHoldExpires',
                'TKeepAlive': 'EvKeepaliveExpires', 'TIdleHold': 'EvIdleHoldExpires'}
 KNOWN = {
